@@ -95,4 +95,16 @@ META = {
         "note": "Trusted: Lean kernel; Conc.lean model at yield-point granularity; fairness and per-op step bound not formalised.",
         "technique": "Lean 4 invariant + progress proof over an interleaving model + forced-schedule correspondence via yield-point hooks",
     },
+    "C04": {
+        "text": "Inductive invariant proved over the interleaving model for all programs, thread counts and schedules: every indexed key's hash has a file whose bytes hash to it and whose length is the indexed size; a commit between rename and apply keeps its blob (per-hash protection ≥ commits in their window); unlink phases only touch unreferenced, unprotected hashes. " + _corr + " Forced schedules through yield-point hooks are replayed step by step.",
+        "design_ref": "DESIGN.md §7 C04, §4 P4",
+        "note": "Trusted: Lean kernel; Conc.lean at yield-point granularity; WAL abstracted; real threads, memory model and parking_lot are assumed (model is tied by forced-schedule correspondence).",
+        "technique": "Lean 4 inductive-invariant proof over an interleaving model + forced-schedule correspondence via yield-point hooks",
+    },
+    "C05": {
+        "text": "Proved for every reachable state of every schedule: a read returns absent iff the key is absent at its lookup, else the complete content of the blob indexed at that instant, and never fails because of a concurrent writer. Real-time-respecting sequential order of the writes is checked per forced schedule by a linearizability checker on the real results. " + _corr,
+        "design_ref": "DESIGN.md §7 C05",
+        "note": "Trusted: as C04; the linearization of writes is by construction of the model (one atomic apply per op) and checked, not separately proved.",
+        "technique": "Lean 4 theorem over the interleaving invariant + forced-schedule correspondence with a linearizability oracle",
+    },
 }
